@@ -39,7 +39,7 @@ theorem bytesOf_none_of_not_bytes (v : PyVal) (h : isinstance v ["bytes"] = fals
   · simp [isinstance, className] at h
   · rfl
 
-theorem isinstance_str (s : Str) : isinstance (.str s) ["str"] = true := by rfl
+theorem x7_isinstance_str (s : Str) : isinstance (.str s) ["str"] = true := by rfl
 
 /-- `_get_payload(msg, source)` for a `str` source: `get_payload()` must be a `str` -/
 theorem _get_payload_eq_model_str (fs : List (String × PyVal)) (src : Str) (v : PyVal)
@@ -49,9 +49,9 @@ theorem _get_payload_eq_model_str (fs : List (String × PyVal)) (src : Str) (v :
       | .ok s => .ok (.str s)
       | .error c => .error (toStringLossy c) := by
   unfold Gen.PySrc._get_payload
-  simp only [isinstance_str, truthy_bool, if_true, msg_get_payload, Bool.false_eq_true, if_false, getattr_obj, hp, ok_bind]
+  simp only [x7_isinstance_str, truthy_bool, if_true, msg_get_payload, Bool.false_eq_true, if_false, getattr_obj, hp, ok_bind]
   cases v with
-  | str s => simp [isinstance_str, getPayload]
+  | str s => simp [x7_isinstance_str, getPayload]
   | _ =>
     rcases hv [] with h | h
     · cases h
